@@ -26,6 +26,24 @@ fn three_docs() -> Vec<ADoc> {
     vec![d[0].clone(), d[1].clone(), d[4].clone(), langs, d[9].clone()]
 }
 
+/// four namespace nodes per element and a DTD-defaulted attribute on four elements: nodes without an order key of their own
+fn keyless_nodes_doc() -> ADoc {
+    use crate::model::adoc::*;
+    let mut d = doc(el(
+        "r",
+        vec![at("xmlns:p", "urn:p"), at("xmlns:q", "urn:q"), at("xmlns:s", "urn:s")],
+        vec![e("b", vec![], vec![]), e("b", vec![], vec![]), e("b", vec![], vec![]), e("b", vec![], vec![])],
+    ));
+    d.doctype = Some(ADoctype {
+        name: "r".into(),
+        public: None,
+        system: None,
+        decls: vec![ADecl::AttList { elem: "b".into(), defs: vec![AAttDef { name: "a".into(), ty: "CDATA".into(), default: ADefault::Value { fixed: false, value: vec![Part::Text("d".into())] } }] }],
+        subset: true,
+    });
+    d
+}
+
 fn classify(o: &Outcome) -> &'static str {
     match o {
         Outcome::Val(_) => "Ok",
@@ -323,6 +341,9 @@ fn families() -> Vec<Family> {
         Family { name: "nested-predicates-count", sizes: steps(2, 40, 2), make: |n| format!("//a{}{}", "[count(//a".repeat(n), ") > 0]".repeat(n)) },
         Family { name: "nested-predicates-position", sizes: steps(2, 40, 2), make: |n| format!("//*{}{}", "[../*[position() = last()]".repeat(n), "]".repeat(n)) },
         Family { name: "nested-filter-predicates", sizes: steps(2, 40, 2), make: |n| format!("//a{}{}", "[(//a)".repeat(n), "]".repeat(n)) },
+        Family { name: "nested-predicates-namespace-nodes", sizes: steps(2, 40, 2), make: |n| format!("//namespace::*{}[1 = 1]{}", "[//namespace::*".repeat(n), "]".repeat(n)) },
+        Family { name: "nested-predicates-defaulted-attributes", sizes: steps(2, 40, 2), make: |n| format!("//@a{}[1 = 1]{}", "[//@a".repeat(n), "]".repeat(n)) },
+        Family { name: "zigzag-namespace-nodes", sizes: steps(2, 40, 2), make: |n| format!("//*{}", "/namespace::*/self::node()/descendant-or-self::node()".repeat(n)) },
         Family { name: "alternating-filter-path", sizes: doubling(1, 10), make: |n| format!("{}/{}", "(".repeat(n), "/*)".repeat(n)) },
     ]
 }
@@ -348,7 +369,8 @@ impl Space for Families {
             sink.sample(|| self.describe(idx));
         }
         with_fixtures(&self.docs, |fxs| {
-            let fx = &fxs[0];
+            // the families over nodes without an order key of their own run on the document that has such nodes
+            let fx = if f.name.ends_with("-namespace-nodes") || f.name.ends_with("-defaulted-attributes") { &fxs[fxs.len() - 1] } else { &fxs[0] };
             let mut prev: Option<(usize, f64)> = None;
             for &n in &f.sizes {
                 let text = (f.make)(n);
@@ -423,7 +445,11 @@ impl Check for C06C {
             "catalogue" => Box::new(Listed { docs: three_docs(), cases: catalogue() }),
             "well-typed" => Box::new(Listed { docs: three_docs(), cases: xgen::expressions(true).iter().map(|e| (canonical(e), "well-typed", false)).collect() }),
             "garbage" => Box::new(Garbage::new(tier.pick(3, 4))),
-            _ => Box::new(Families { docs: three_docs(), fams: families(), soft_cap: tier.pick(1.0, 3.0) }),
+            _ => {
+                let mut docs = three_docs();
+                docs.push(keyless_nodes_doc());
+                Box::new(Families { docs, fams: families(), soft_cap: tier.pick(1.0, 3.0) })
+            }
         }
     }
     fn case_cap(&self, tier: Tier) -> f64 {
